@@ -23,6 +23,10 @@ def run(tier, seed):
     for k in range(4 if quick else 16):
         jobs.append(dict(exe=exe, scn="rankstress", seed0=seed * 1000000 + 900001 + k, count=1, opts=("rounds=%d" % (30 if quick else 80), "pairs=150"),
                          mode="free", env={}, timeout=600))
+    # the life cycle repeated hundreds of times, sequentially, with the allocation ledger on: nothing may pile up
+    for k in range(2 if quick else 6):
+        jobs.append(dict(exe=exe, scn="cycle", seed0=seed * 1000000 + 950001 + k, count=1, opts=("warm=%d" % (40 + 7 * k), "n=%d" % (400 if quick else 1500)),
+                         mode="free", env={}, timeout=600))
     if not quick:
         for scn in ("ranks", "rankconc"):
             jobs.append(dict(exe=exe, scn=scn, seed0=seed * 1000000 + 800001, count=300, opts=(), mode="free", env={"ABTV_PERTURB": "1"}, timeout=900))
